@@ -35,6 +35,9 @@ var richAlphabet = append(append([]model.Tok{}, blindAlphabet...),
 	model.T(model.LIT, "`null`"), model.T(model.LIT, "`\"a\"`"), model.T(model.LIT, "`[1, {\"a\": \"\\`\"}]`"), model.T(model.LIT, "` {} `"),
 	model.T(model.RAW, "''"), model.T(model.RAW, `'it\'s'`), model.T(model.RAW, `'a\nb "q" é'`),
 	model.T(model.CMP, "!="), model.T(model.CMP, "<="), model.T(model.CMP, ">"), model.T(model.CMP, ">="),
+	// runs of backslashes before the closing delimiter: an escaped backslash followed by an escaped delimiter,
+	// two escaped backslashes, and a raw string with a doubled backslash / ending in an escaped quote
+	model.T(model.QID, `"a\\\"b"`), model.T(model.QID, `"\\\\"`), model.T(model.LIT, "`\"x\\\\\\`\"`"), model.T(model.RAW, `'a\\b'`), model.T(model.RAW, `'\\\''`), model.T(model.RAW, `'b\''`),
 	// lexically complete tokens whose content is not valid (the grammar's json-value / quoted-string / number)
 	model.T(model.LIT, "`1 2`"), model.T(model.LIT, "`{\"a\": 1} x`"), model.T(model.LIT, "`[1, 2]]`"), model.T(model.LIT, "`foo`"), model.T(model.LIT, "`[1,]`"), model.T(model.LIT, "``"), model.T(model.LIT, "`'a'`"), model.T(model.LIT, "`01`"),
 	model.T(model.QID, `"\q"`), model.T(model.QID, `"a\u12"`), model.T(model.QID, "\"a\nb\""), model.T(model.QID, `"\ud800"`),
